@@ -27,11 +27,40 @@ func RealLength(s string) int {
 // accounting for any ANSI escapes/color codes, and tabulations replaced with 4 spaces.
 func LineSpan(line []rune, idx, indent int) (x, y int) {
 	termWidth := term.GetWidth()
-	lineLen := RealLength(string(line))
-	lineLen += indent
 
-	cursorY := lineLen / termWidth
-	cursorX := lineLen % termWidth
+	// Walk the line the way the terminal lays it out: a character that is too
+	// wide for what is left of the row (a double-width one on the last column)
+	// goes to the next row whole, and leaves the end of the row unused.
+	text := strings.ReplaceAll(color.Strip(string(line)), "\t", "     ")
+	cursorY := indent / termWidth
+	cursorX := indent % termWidth
+
+	if indent > 0 && cursorX == 0 {
+		// The indent fills its last row: the text starts on the next one.
+		cursorY--
+		cursorX = termWidth
+	}
+
+	graphemes := uniseg.NewGraphemes(text)
+	for graphemes.Next() {
+		width := graphemes.Width()
+		if width == 0 {
+			continue
+		}
+
+		if cursorX+width > termWidth && width <= termWidth {
+			cursorY++
+			cursorX = 0
+		}
+
+		cursorX += width
+	}
+
+	// A full last row leaves the cursor at the start of the next one.
+	if cursorX >= termWidth {
+		cursorY++
+		cursorX = 0
+	}
 
 	// Empty lines are still considered a line.
 	if idx != 0 {
